@@ -1,18 +1,33 @@
 package main
 
-// parse/parse.go: every place the parser raises an error (C19, parse half).
+// parse/*.go: every place the parser raises an error (C19, parse half).
 //
 //   parser_error_sites         one row per (function, kind, argument, binding) with its number of
-//                              occurrences, in source order of the functions:
+//                              occurrences:
+//                                function the REVIEWED function (errSiteRoots: the functions of parse.go that
+//                                         Proofs/ErrPosSites.v maps to model procedures) the site belongs to AFTER
+//                                         INLINING: every other function of package parse that has the parser at
+//                                         hand (receiver or parameter of type *tree) is a helper, and its sites --
+//                                         and those of the helpers it calls -- are counted at each of its call
+//                                         sites, in the reviewed function the chain of calls starts from.  A
+//                                         function that nobody in the package calls and that is not reviewed
+//                                         (an entry point, a new command) keeps its own name.
 //                                kind     errorf | error | unexpected | expect | errorAt
-//                                argument unexpected: the token variable complained about;
-//                                         expect: the item type expected; else empty
-//                                binding  unexpected: where that variable gets its value in the function --
-//                                         a sorted "+"-joined set of  next | expect | nextNonComment | peek | param
-//                                         (anything else is reported as untranslatable: the model passes
+//                                argument expect: the item type expected (a helper's parameter is replaced by what
+//                                         the call site passes); errorAt: the token expression; else empty
+//                                binding  unexpected: where the token complained about gets its value in the
+//                                         function -- a sorted "+"-joined set of
+//                                         next | expect | nextNonComment | peek | param
+//                                         (a helper's parameter is replaced by the binding of the call site's
+//                                         argument; anything else is reported as untranslatable: the model passes
 //                                         `unexpected` the token a next()/expect() has just returned)
-//                              A call site added to parse.go shows up as a new row (or a larger count):
-//                              Proofs/ErrPosSites.v compares the rows with the reviewed list.
+//                              The rows are a multiset: Proofs/ErrPosSites.v compares them with the reviewed list
+//                              regardless of order.  The NAMES of local variables and of helpers do not occur.
+//                              So splitting a helper off a reviewed function, inlining one, reordering functions
+//                              or statements and renaming locals leave the table alone; a call site added anywhere
+//                              (a new row or a larger count, under the reviewed function it is reached from) or a
+//                              site that complains about another token (another binding) changes it.
+//   parser_error_site_roots    errSiteRoots, so that the Coq side checks it is its own list of reviewed functions
 //   parser_error_prefix_format the format errorAt prepends ("template %s:%d:%d: %s"), after checking that its
 //                              arguments are t.name, lineNumber(tok.pos), columnNumber(tok.pos), format and
 //                              that the same name / line / column go into errortypes.NewErrFilePosf
@@ -20,11 +35,15 @@ package main
 //                              token[0], or token[peekCount-1] when peekCount > 0
 //
 // The reporting functions themselves (expect, unexpected, errorf, errorAt, error, recover) are not sites.
+// Limits (reported as untranslatable, never guessed): a reporting method used as a value (`f := t.errorf`), the
+// parser copied into another variable, a site in a method of another type that is handed the parser.
 
 import (
 	"bytes"
 	"go/ast"
 	"go/printer"
+	"os"
+	"path/filepath"
 	"sort"
 	"strings"
 )
@@ -35,6 +54,16 @@ func init() {
 
 var errReporters = map[string]bool{"expect": true, "unexpected": true, "errorf": true, "errorAt": true, "error": true, "recover": true}
 var errKinds = map[string]bool{"expect": true, "unexpected": true, "errorf": true, "errorAt": true, "error": true}
+var errBinders = map[string]bool{"next": true, "expect": true, "nextNonComment": true, "peek": true}
+
+// the reviewed functions: keys of cover_map in Proofs/ErrPosSites.v (checked there: roots_are_cover_map)
+var errSiteRoots = []string{
+	"textOrTag", "beginTag", "parsePrint", "parseAlias", "parseLet", "parseCss", "parseCall", "parseCallParams",
+	"parseSwitch", "parseCase", "parseFor", "parseIf", "parseSoyDoc", "parseAttrs", "parseMsg", "parsePlural",
+	"notmsg", "parseNamespace", "parseAutoescape", "parseTemplate", "parseHeaderParam", "boolAttr",
+	"parseExprFirstTerm", "parseDataRef", "parseListOrMap", "parseListLiteral", "parseMapLiteral", "parseTernary",
+	"newValueNode", "newFunctionNode",
+}
 
 func (g *gen) exprStr(e ast.Expr) string {
 	var b bytes.Buffer
@@ -42,8 +71,39 @@ func (g *gen) exprStr(e ast.Expr) string {
 	return b.String()
 }
 
-// tCall recognises t.<name>(...) and returns name
-func tCall(e ast.Expr) (string, *ast.CallExpr) {
+// a function of package parse that has the parser at hand
+type esFunc struct {
+	name   string
+	fd     *ast.FuncDecl
+	trees  map[string]bool // receiver / parameters of type *tree
+	params []string        // parameter names in order ("" for unnamed / variadic)
+}
+
+type esRow struct{ kind, arg, bind string }
+
+// what a helper's parameter stands for at one call site
+type esArg struct {
+	bind   string // binding of the argument when it is a token the caller bound by next / expect / ...; "" unknown
+	expr   string // the argument's text (a caller's parameter replaced in turn)
+	hasTxt bool
+}
+
+type esCtx struct {
+	g     *gen
+	funcs map[string]*esFunc
+	roots map[string]bool
+}
+
+func isTreeType(e ast.Expr) bool {
+	if st, ok := e.(*ast.StarExpr); ok {
+		e = st.X
+	}
+	id, ok := e.(*ast.Ident)
+	return ok && id.Name == "tree"
+}
+
+// treeCall recognises <parser>.<name>(...) and returns name
+func (f *esFunc) treeCall(e ast.Expr) (string, *ast.CallExpr) {
 	c, ok := e.(*ast.CallExpr)
 	if !ok {
 		return "", nil
@@ -52,50 +112,84 @@ func tCall(e ast.Expr) (string, *ast.CallExpr) {
 	if !ok {
 		return "", nil
 	}
-	if id, ok := sel.X.(*ast.Ident); !ok || id.Name != "t" {
+	if id, ok := sel.X.(*ast.Ident); !ok || !f.trees[id.Name] {
 		return "", nil
 	}
 	return sel.Sel.Name, c
 }
 
-// bindingsOf: how the variable [name] gets its value inside fd
-func (g *gen) bindingsOf(fd *ast.FuncDecl, name string) (string, bool) {
+func (f *esFunc) isParam(name string) bool {
+	for _, p := range f.params {
+		if p == name && p != "" {
+			return true
+		}
+	}
+	return false
+}
+
+// bindingOf: how the token expression e gets its value inside f (env: what f's parameters stand for when f is a
+// helper being inlined)
+func (c *esCtx) bindingOf(f *esFunc, e ast.Expr, env map[string]esArg) (string, bool) {
+	if fn, call := f.treeCall(e); call != nil {
+		if errBinders[fn] {
+			return fn, true
+		}
+		return "", false
+	}
+	id, isId := e.(*ast.Ident)
+	if !isId {
+		return "", false
+	}
+	name := id.Name
 	set := map[string]bool{}
 	ok := true
-	if fd.Type.Params != nil {
-		for _, f := range fd.Type.Params.List {
-			for _, n := range f.Names {
-				if n.Name == name {
-					set["param"] = true
+	if f.isParam(name) {
+		if a, has := env[name]; has {
+			if a.bind == "" {
+				ok = false
+			}
+			for _, x := range strings.Split(a.bind, "+") {
+				if x != "" {
+					set[x] = true
 				}
 			}
+		} else {
+			set["param"] = true
 		}
 	}
 	note := func(rhs ast.Expr) {
-		fn, _ := tCall(rhs)
-		switch fn {
-		case "next", "expect", "nextNonComment", "peek":
+		if fn, call := f.treeCall(rhs); call != nil && errBinders[fn] {
 			set[fn] = true
-		default:
+		} else {
 			ok = false
 		}
 	}
-	ast.Inspect(fd.Body, func(n ast.Node) bool {
+	ast.Inspect(f.fd.Body, func(n ast.Node) bool {
 		switch s := n.(type) {
 		case *ast.AssignStmt:
 			for i, l := range s.Lhs {
-				if id, isId := l.(*ast.Ident); isId && id.Name == name && len(s.Rhs) == len(s.Lhs) {
-					note(s.Rhs[i])
+				if id, isId := l.(*ast.Ident); isId && id.Name == name {
+					if len(s.Rhs) == len(s.Lhs) {
+						note(s.Rhs[i])
+					} else {
+						ok = false
+					}
 				}
 			}
 		case *ast.ValueSpec:
 			for i, id := range s.Names {
 				if id.Name == name {
-					if i < len(s.Values) {
+					if i < len(s.Values) && len(s.Values) == len(s.Names) {
 						note(s.Values[i])
 					} else {
 						ok = false
 					}
+				}
+			}
+		case *ast.RangeStmt:
+			for _, l := range []ast.Expr{s.Key, s.Value} {
+				if id, isId := l.(*ast.Ident); isId && id.Name == name {
+					ok = false
 				}
 			}
 		}
@@ -112,67 +206,245 @@ func (g *gen) bindingsOf(fd *ast.FuncDecl, name string) (string, bool) {
 	return strings.Join(l, "+"), ok
 }
 
+// calleeOf: the helper or reviewed function of the package a call goes to ("" when it is none of ours)
+func (c *esCtx) calleeOf(f *esFunc, call *ast.CallExpr) string {
+	switch fun := call.Fun.(type) {
+	case *ast.Ident:
+		if h, ok := c.funcs[fun.Name]; ok && h.fd.Recv == nil {
+			return fun.Name
+		}
+	case *ast.SelectorExpr:
+		if id, ok := fun.X.(*ast.Ident); ok && f.trees[id.Name] {
+			if h, ok := c.funcs[fun.Sel.Name]; ok && h.fd.Recv != nil {
+				return fun.Sel.Name
+			}
+		}
+	}
+	return ""
+}
+
+// sites: the rows of f after inlining its helpers, in order of occurrence
+func (c *esCtx) sites(f *esFunc, env map[string]esArg, stack map[string]bool, add func(esRow, int)) {
+	g := c.g
+	stack[f.name] = true
+	defer delete(stack, f.name)
+	callFuns := map[ast.Expr]bool{}
+	ast.Inspect(f.fd.Body, func(n ast.Node) bool {
+		switch s := n.(type) {
+		case *ast.CallExpr:
+			callFuns[s.Fun] = true
+		case *ast.SelectorExpr:
+			if id, ok := s.X.(*ast.Ident); ok && f.trees[id.Name] && errKinds[s.Sel.Name] && !callFuns[s] {
+				g.fail("parser error sites: %s: %s.%s is used as a value", f.name, id.Name, s.Sel.Name)
+			}
+		case *ast.AssignStmt:
+			for _, r := range s.Rhs {
+				if id, ok := r.(*ast.Ident); ok && f.trees[id.Name] {
+					g.fail("parser error sites: %s: the parser %s is copied into another variable", f.name, id.Name)
+				}
+			}
+		case *ast.ValueSpec:
+			for _, r := range s.Values {
+				if id, ok := r.(*ast.Ident); ok && f.trees[id.Name] {
+					g.fail("parser error sites: %s: the parser %s is copied into another variable", f.name, id.Name)
+				}
+			}
+		}
+		e, ok := n.(ast.Expr)
+		if !ok {
+			return true
+		}
+		call, isCall := e.(*ast.CallExpr)
+		if !isCall {
+			return true
+		}
+		fn, _ := f.treeCall(e)
+		if !errKinds[fn] {
+			// a call of a helper: its sites are counted here
+			callee := c.calleeOf(f, call)
+			if callee == "" || c.roots[callee] || errReporters[callee] || stack[callee] {
+				return true
+			}
+			h := c.funcs[callee]
+			henv := map[string]esArg{}
+			for i, p := range h.params {
+				if p == "" || i >= len(call.Args) || call.Ellipsis.IsValid() {
+					continue
+				}
+				var a esArg
+				if b, okb := c.bindingOf(f, call.Args[i], env); okb {
+					a.bind = b
+				}
+				if id, isId := call.Args[i].(*ast.Ident); isId && f.isParam(id.Name) {
+					if up, has := env[id.Name]; has && up.hasTxt {
+						a.expr, a.hasTxt = up.expr, true
+					}
+				}
+				if !a.hasTxt {
+					a.expr, a.hasTxt = g.exprStr(call.Args[i]), true
+				}
+				henv[p] = a
+			}
+			c.sites(h, henv, stack, add)
+			return true
+		}
+		r := esRow{kind: fn}
+		argText := func(x ast.Expr) string {
+			if id, isId := x.(*ast.Ident); isId && f.isParam(id.Name) {
+				if a, has := env[id.Name]; has && a.hasTxt {
+					return a.expr
+				}
+			}
+			return g.exprStr(x)
+		}
+		switch fn {
+		case "unexpected":
+			if len(call.Args) != 2 {
+				g.fail("parser error sites: %s: unexpected with %d arguments", f.name, len(call.Args))
+				return true
+			}
+			b, okb := c.bindingOf(f, call.Args[0], env)
+			if !okb {
+				g.fail("parser error sites: %s: unexpected(%s, ..): the token is not only bound by next/expect/nextNonComment/peek or a parameter", f.name, g.exprStr(call.Args[0]))
+			}
+			r.bind = b
+		case "expect":
+			if len(call.Args) != 2 {
+				g.fail("parser error sites: %s: expect with %d arguments", f.name, len(call.Args))
+				return true
+			}
+			r.arg = argText(call.Args[0])
+		case "errorAt":
+			// outside the reporting functions nobody calls errorAt today; a new caller chooses its own token
+			if len(call.Args) > 0 {
+				r.arg = argText(call.Args[0])
+			}
+		}
+		add(r, 1)
+		return true
+	})
+}
+
 func (g *gen) parserErrorSites() {
-	f := g.file(parserRel)
-	if f == nil {
+	c := &esCtx{g: g, funcs: map[string]*esFunc{}, roots: map[string]bool{}}
+	for _, r := range errSiteRoots {
+		c.roots[r] = true
+	}
+	dir := filepath.Dir(parserRel)
+	ents, err := os.ReadDir(filepath.Join(g.repo, dir))
+	if err != nil || g.file(parserRel) == nil || len(g.file(parserRel).Decls) == 0 {
 		g.fail("parser error sites: cannot read %s", parserRel)
-		g.p("Definition parser_error_sites : list (bstr * bstr * bstr * bstr * N) := [].\n")
+		g.p("Definition parser_error_sites : list (bstr * bstr * bstr * bstr * N) := [].\nDefinition parser_error_site_roots : list bstr := [].\n")
 		g.p("Definition parser_error_prefix_format : bstr := [].\nDefinition parser_errorf_token : bstr := [].\n\n")
 		return
+	}
+	var names []string // in source order, parse.go first
+	rels := []string{parserRel}
+	for _, e := range ents {
+		n := e.Name()
+		if e.IsDir() || !strings.HasSuffix(n, ".go") || strings.HasSuffix(n, "_test.go") || filepath.Join(dir, n) == parserRel {
+			continue
+		}
+		rels = append(rels, filepath.Join(dir, n))
+	}
+	for _, rel := range rels {
+		for _, d := range g.file(rel).Decls {
+			fd, ok := d.(*ast.FuncDecl)
+			if !ok || fd.Body == nil {
+				continue
+			}
+			f := &esFunc{name: fd.Name.Name, fd: fd, trees: map[string]bool{}}
+			onTree := fd.Recv == nil
+			if fd.Recv != nil && len(fd.Recv.List) == 1 && isTreeType(fd.Recv.List[0].Type) {
+				onTree = true
+				for _, n := range fd.Recv.List[0].Names {
+					f.trees[n.Name] = true
+				}
+			}
+			if fd.Type.Params != nil {
+				for _, fl := range fd.Type.Params.List {
+					_, variadic := fl.Type.(*ast.Ellipsis)
+					if len(fl.Names) == 0 {
+						f.params = append(f.params, "")
+					}
+					for _, n := range fl.Names {
+						if isTreeType(fl.Type) {
+							f.trees[n.Name] = true
+						}
+						if variadic || n.Name == "_" {
+							f.params = append(f.params, "")
+						} else {
+							f.params = append(f.params, n.Name)
+						}
+					}
+				}
+			}
+			if len(f.trees) == 0 {
+				continue // cannot raise a parser error
+			}
+			if !onTree {
+				// a method of another type that is handed the parser: not followed
+				has := false
+				ast.Inspect(fd.Body, func(n ast.Node) bool {
+					if e, ok := n.(ast.Expr); ok {
+						if fn, call := f.treeCall(e); call != nil && errKinds[fn] {
+							has = true
+						}
+					}
+					return true
+				})
+				if has {
+					g.fail("parser error sites: %s: %s is a method of another type that raises parser errors", rel, fd.Name.Name)
+				}
+				continue
+			}
+			if errReporters[f.name] && fd.Recv != nil {
+				continue
+			}
+			if _, dup := c.funcs[f.name]; dup {
+				g.fail("parser error sites: two functions named %s have the parser at hand", f.name)
+				continue
+			}
+			c.funcs[f.name] = f
+			names = append(names, f.name)
+		}
+	}
+	// who is called inside the package (by something other than itself)
+	called := map[string]bool{}
+	for _, n := range names {
+		f := c.funcs[n]
+		ast.Inspect(f.fd.Body, func(x ast.Node) bool {
+			if call, ok := x.(*ast.CallExpr); ok {
+				if callee := c.calleeOf(f, call); callee != "" && callee != n {
+					called[callee] = true
+				}
+			}
+			return true
+		})
 	}
 	type row struct{ fn, kind, arg, bind string }
 	var order []row
 	count := map[row]int{}
-	for _, d := range f.Decls {
-		fd, ok := d.(*ast.FuncDecl)
-		if !ok || fd.Body == nil || errReporters[fd.Name.Name] {
-			continue
-		}
-		ast.Inspect(fd.Body, func(n ast.Node) bool {
-			e, ok := n.(ast.Expr)
-			if !ok {
-				return true
+	emit := func(n string) {
+		c.sites(c.funcs[n], map[string]esArg{}, map[string]bool{}, func(r esRow, k int) {
+			rr := row{n, r.kind, r.arg, r.bind}
+			if count[rr] == 0 {
+				order = append(order, rr)
 			}
-			fn, call := tCall(e)
-			if call == nil || !errKinds[fn] {
-				return true
-			}
-			r := row{fn: fd.Name.Name, kind: fn}
-			switch fn {
-			case "unexpected":
-				if len(call.Args) != 2 {
-					g.fail("parser error sites: %s: unexpected with %d arguments", fd.Name.Name, len(call.Args))
-					return true
-				}
-				id, isId := call.Args[0].(*ast.Ident)
-				if !isId {
-					g.fail("parser error sites: %s: unexpected(%s, ..): the token is not a variable", fd.Name.Name, g.exprStr(call.Args[0]))
-					return true
-				}
-				r.arg = id.Name
-				b, okb := g.bindingsOf(fd, id.Name)
-				if !okb {
-					g.fail("parser error sites: %s: unexpected(%s, ..): %s is not only bound by next/expect/nextNonComment/peek or a parameter", fd.Name.Name, id.Name, id.Name)
-				}
-				r.bind = b
-			case "expect":
-				if len(call.Args) != 2 {
-					g.fail("parser error sites: %s: expect with %d arguments", fd.Name.Name, len(call.Args))
-					return true
-				}
-				r.arg = g.exprStr(call.Args[0])
-			case "errorAt":
-				// outside the reporting functions nobody calls errorAt today; a new caller chooses its own token
-				r.arg = g.exprStr(call.Args[0])
-			}
-			if count[r] == 0 {
-				order = append(order, r)
-			}
-			count[r]++
-			return true
+			count[rr] += k
 		})
 	}
-	g.p("(* parse/parse.go: every errorf / error / unexpected / expect / errorAt call site outside the reporting functions:\n   (function, kind, argument, binding of the token variable, occurrences) *)\n")
+	for _, n := range errSiteRoots {
+		if c.funcs[n] != nil {
+			emit(n)
+		}
+	}
+	for _, n := range names {
+		if !c.roots[n] && !called[n] {
+			emit(n)
+		}
+	}
+	g.p("(* package parse: every errorf / error / unexpected / expect / errorAt call site outside the reporting functions,\n   helpers inlined into the reviewed functions: (function, kind, argument, binding of the token, occurrences) *)\n")
 	g.p("Definition parser_error_sites : list (bstr * bstr * bstr * bstr * N) := [\n")
 	var js [][]interface{}
 	for i, r := range order {
@@ -185,30 +457,33 @@ func (g *gen) parserErrorSites() {
 	}
 	g.p("].\n")
 	g.js["parser_error_sites"] = js
+	g.p("Definition parser_error_site_roots : list bstr := [%s].\n", strings.Join(mapStr(errSiteRoots, coqBytes), "; "))
+	g.js["parser_error_site_roots"] = errSiteRoots
 
 	// ---- errorAt: the prefix and the triple handed to NewErrFilePosf ----
 	format := ""
 	if fd := g.method(parserRel, "tree", "errorAt"); fd == nil || fd.Body == nil {
 		g.fail("parser error sites: tree.errorAt not found")
 	} else {
+		cs := g.canonText(fd, []string{"tok", "format", "args"}, nil)
 		const line = "t.lex.lineNumber(tok.pos)"
 		const col = "t.lex.columnNumber(tok.pos)"
 		okPrefix, okPanic := false, false
 		ast.Inspect(fd.Body, func(n ast.Node) bool {
 			switch s := n.(type) {
 			case *ast.AssignStmt:
-				if len(s.Lhs) == 1 && len(s.Rhs) == 1 && g.exprStr(s.Lhs[0]) == "format" {
-					if c, ok := s.Rhs[0].(*ast.CallExpr); ok && g.exprStr(c.Fun) == "fmt.Sprintf" && len(c.Args) == 5 {
-						if lit, ok := strLit(c.Args[0]); ok && g.exprStr(c.Args[1]) == "t.name" && g.exprStr(c.Args[2]) == line &&
-							g.exprStr(c.Args[3]) == col && g.exprStr(c.Args[4]) == "format" {
+				if len(s.Lhs) == 1 && len(s.Rhs) == 1 && cs(s.Lhs[0]) == "format" {
+					if c, ok := s.Rhs[0].(*ast.CallExpr); ok && cs(c.Fun) == "fmt.Sprintf" && len(c.Args) == 5 {
+						if lit, ok := strLit(c.Args[0]); ok && cs(c.Args[1]) == "t.name" && cs(c.Args[2]) == line &&
+							cs(c.Args[3]) == col && cs(c.Args[4]) == "format" {
 							format, okPrefix = lit, true
 						}
 					}
 				}
 			case *ast.CallExpr:
-				if g.exprStr(s.Fun) == "errortypes.NewErrFilePosf" && len(s.Args) == 5 && s.Ellipsis.IsValid() {
-					if g.exprStr(s.Args[0]) == "t.name" && g.exprStr(s.Args[1]) == line && g.exprStr(s.Args[2]) == col &&
-						g.exprStr(s.Args[3]) == "format" && g.exprStr(s.Args[4]) == "args" {
+				if cs(s.Fun) == "errortypes.NewErrFilePosf" && len(s.Args) == 5 && s.Ellipsis.IsValid() {
+					if cs(s.Args[0]) == "t.name" && cs(s.Args[1]) == line && cs(s.Args[2]) == col &&
+						cs(s.Args[3]) == "format" && cs(s.Args[4]) == "args" {
 						okPanic = true
 					}
 				}
@@ -230,9 +505,26 @@ func (g *gen) parserErrorSites() {
 	if fd := g.method(parserRel, "tree", "errorf"); fd == nil || fd.Body == nil {
 		g.fail("parser error sites: tree.errorf not found")
 	} else {
+		// the one local (the token chosen) is called tok in the canonical text
+		local := map[string]string{}
+		if len(fd.Body.List) > 0 {
+			switch s := fd.Body.List[0].(type) {
+			case *ast.DeclStmt:
+				if gd, ok := s.Decl.(*ast.GenDecl); ok && len(gd.Specs) == 1 {
+					if vs, ok := gd.Specs[0].(*ast.ValueSpec); ok && len(vs.Names) == 1 {
+						local[vs.Names[0].Name] = "tok"
+					}
+				}
+			case *ast.AssignStmt:
+				if id, ok := s.Lhs[0].(*ast.Ident); ok && len(s.Lhs) == 1 {
+					local[id.Name] = "tok"
+				}
+			}
+		}
+		cs := g.canonText(fd, []string{"format", "args"}, local)
 		var b bytes.Buffer
 		for _, s := range fd.Body.List {
-			printer.Fprint(&b, g.fset, s)
+			b.WriteString(cs(s))
 			b.WriteString("\n")
 		}
 		var code []string
@@ -243,6 +535,7 @@ func (g *gen) parserErrorSites() {
 			code = append(code, ln)
 		}
 		got := strings.Join(strings.Fields(strings.Join(code, " ")), " ")
+		got = strings.Replace(got, "tok := t.token[0]", "var tok = t.token[0]", 1)
 		want := "var tok = t.token[0] if t.peekCount > 0 { tok = t.token[t.peekCount-1] } t.errorAt(tok, format, args...)"
 		if got != want {
 			g.fail("parser error sites: errorf: body is not `tok = token[0]; if peekCount > 0 { tok = token[peekCount-1] }; errorAt(tok, ...)`: %s", got)
@@ -251,4 +544,56 @@ func (g *gen) parserErrorSites() {
 		}
 	}
 	g.p("Definition parser_errorf_token : bstr := %s. (* %s *)\n\n", coqBytes(shape), shape)
+}
+
+// canonText prints a node of fd with the receiver called t, the parameters called as given and the listed locals
+// renamed (identifiers only: a field or method of that name is left alone)
+func (g *gen) canonText(fd *ast.FuncDecl, params []string, locals map[string]string) func(ast.Node) string {
+	ren := map[string]string{}
+	if fd.Recv != nil && len(fd.Recv.List) == 1 && len(fd.Recv.List[0].Names) == 1 {
+		ren[fd.Recv.List[0].Names[0].Name] = "t"
+	}
+	i := 0
+	if fd.Type.Params != nil {
+		for _, fl := range fd.Type.Params.List {
+			for _, n := range fl.Names {
+				if i < len(params) {
+					ren[n.Name] = params[i]
+				}
+				i++
+			}
+		}
+	}
+	for k, v := range locals {
+		ren[k] = v
+	}
+	return func(n ast.Node) string {
+		// rename on a copy of the identifiers' names, then restore
+		var touched []*ast.Ident
+		var old []string
+		skip := map[*ast.Ident]bool{}
+		ast.Inspect(n, func(x ast.Node) bool {
+			switch y := x.(type) {
+			case *ast.SelectorExpr:
+				skip[y.Sel] = true
+			case *ast.KeyValueExpr:
+				if id, ok := y.Key.(*ast.Ident); ok {
+					skip[id] = true
+				}
+			case *ast.Ident:
+				if to, ok := ren[y.Name]; ok && !skip[y] {
+					touched = append(touched, y)
+					old = append(old, y.Name)
+					y.Name = to
+				}
+			}
+			return true
+		})
+		var b bytes.Buffer
+		printer.Fprint(&b, g.fset, n)
+		for k, id := range touched {
+			id.Name = old[k]
+		}
+		return b.String()
+	}
 }
